@@ -10,6 +10,8 @@ import Proofs.IterDataSim
 import PydapModel.IterNest
 import Proofs.IterNestSim
 import Proofs.IterDataSrc
+import PydapModel.IterHeap
+import Proofs.IterHeap
 namespace Pydap.C17
 open Pydap Pydap.IterData
 
@@ -333,6 +335,98 @@ example : ∃ s', IterNest.getitem litVal (IterNest.mkIterData exNSrc ['s'] exHd
   ⟨_, rfl, rfl, rfl⟩
 
 end Nested
+
+/-! ## the object level (theorem audit, round 7)
+
+`C17_pure`, `C17_nested_pure` and "iterating twice" above are statements about RECORDS: `getitem` returns a new record
+and cannot change its argument, `iter` is a function — they hold by construction of a model with value semantics and
+say nothing about `copy.copy(self)`, `self.imap[:]`, `out.imap.append(…)`.  The theorems below are about
+`PydapModel/IterHeap.lean`, where streams, their three lists, their templates and their sources are objects in a heap,
+`__copy__` allocates, `__getitem__` writes through the references held by `out`, and a pass reads the source object. -/
+
+section Heap
+open Pydap.IterHeap
+
+/-- **Each step returns a NEW stream and leaves everything that existed unchanged.**  For every heap, every stream
+    object and every key: if `__getitem__` returns, the object returned did not exist before, and every object that
+    existed — the operand, its filter/map/slice lists, its template, `root`, its source, every other stream — is
+    still at its address with the same contents (`Ext`). -/
+theorem C17_heap_step_fresh_frame (lit : List Char → Option A) (h h' : Heap A) (r r' : Nat) (k : Key)
+    (hg : getitemH lit h r k = some (.ok (h', r'))) :
+    h.length ≤ r' ∧ ∀ (i : Nat) (x : Obj A), h[i]? = some x → h'[i]? = some x :=
+  ⟨(getitemH_frame lit h h' r r' k hg).2, (getitemH_frame lit h h' r r' k hg).1⟩
+
+/-- **The object level refines the record level** (this is what makes `C17_normal_form`, `C17_prefixes`, `C17_pure`
+    statements about stream OBJECTS): if object `r` stands for the record `s`, `__getitem__` raises exactly when
+    `getitem lit s k` fails, with the same class, and otherwise returns an object standing for `getitem`'s result. -/
+theorem C17_heap_refines (lit : List Char → Option A) (h : Heap A) (r : Nat) (s : Stream A) (k : Key)
+    (hv : view h r = some s) :
+    match getitem lit s k with
+    | .error e => getitemH lit h r k = some (.error e)
+    | .ok s' => ∃ h' r', getitemH lit h r k = some (.ok (h', r')) ∧ view h' r' = some s' :=
+  getitemH_refines lit h r s k hv
+
+/-- **Iterating twice gives the same rows**, for sources that can be read again (a list; the CSV file, re-opened by
+    `CSVData.stream` on every pass): a complete pass lists `iter` of the record the object stands for and leaves the
+    heap exactly as it was. -/
+theorem C17_heap_reiterable (cmp : Op → A → A → Bool) (h : Heap A) (r : Nat) (s : Stream A) (hre : Reiterable h)
+    (hv : view h r = some s) :
+    iterH cmp h r = some (iter cmp s, h) := iterH_reiterable cmp h r s hre hv
+
+/-- the hypothesis is necessary: `IterData(generator, template)` lists its rows once, then nothing (outside the
+    property's domain — tables — but inside what the constructor accepts) -/
+theorem C17_heap_generator_consumed (cmp : Op → A → A → Bool) (row : List A) :
+    ∃ h1 h2, iterH cmp (mkHeap (.gen [row] false) ⟨[], [], []⟩ true) 5 = some (.ok [.row row], h1) ∧
+      iterH cmp h1 5 = some (.ok [], h2) := iterH_generator_consumed cmp row
+
+/-- **Histories: interleaved steps and passes.**  Start from any heap whose sources can be read again and run ANY
+    history of `handles[i][key]` steps (on any stream made so far, failed steps included) and complete passes over
+    any of them.  Every stream object `r` that existed at the start still stands for the same record `s` afterwards,
+    and a pass over it — the first or a repeated one — lists `iter cmp s` and changes nothing. -/
+theorem C17_heap_history (lit : List Char → Option A) (cmp : Op → A → A → Bool) (cmds : List Cmd)
+    (h h' : Heap A) (hs hs' : List Nat) (hre : Reiterable h)
+    (hrun : runHist lit cmp h hs cmds = some (h', hs')) (r : Nat) (s : Stream A) (hv : view h r = some s) :
+    hs <+: hs' ∧ view h' r = some s ∧ iterH cmp h' r = some (iter cmp s, h') := by
+  obtain ⟨e, p, re⟩ := runHist_stable lit cmp cmds h hs h' hs' hre hrun
+  have hv' := view_ext e r s hv
+  exact ⟨p, hv', iterH_reiterable cmp h' r s re hv'⟩
+
+/-- the constructors: the object made by `IterData(rows, t)` / `CSVData(path, t)` stands for `mkIterData` / `mkCSVData` -/
+theorem C17_heap_init (src : List (List A)) (t : SeqT) :
+    view (mkHeap (.rows src) t false) 5 = some (mkIterData src t) ∧
+    view (mkHeap (.csv src) t true) 5 = some (mkCSVData src t) ∧
+    Reiterable (mkHeap (.rows src) t false) ∧ Reiterable (mkHeap (.csv src) t true) := by
+  refine ⟨rfl, rfl, ?_, ?_⟩ <;>
+  · intro i l c hi
+    simp only [mkHeap] at hi
+    match i, hi with
+    | 0, hi => simp at hi
+    | 1, hi => simp at hi
+    | 2, hi => simp at hi
+    | 3, hi => simp at hi
+    | 4, hi => simp at hi
+    | 5, hi => simp at hi
+    | n + 6, hi => simp at hi
+
+/-- a pass over object `r` of heap `h` lists `expect` -/
+def hlists (h : Heap TableVal.Val) (r : Nat) (expect : List (Item TableVal.Val)) : Bool :=
+  match iterH TableVal.cmpVal h r with
+  | some (.ok l, _) => l == expect
+  | _ => false
+
+/-! non-vacuity: a history on the example table with a column list, a clause, a pass in between, a step on an OLD
+    handle and a failing step; afterwards the first stream still lists all rows, the last one the second kept row -/
+open Pydap.TableVal in
+example :
+    (match runHist litVal cmpVal (mkHeap (.rows exSrc) ⟨['s'], exAll, exAll⟩ false) [5]
+        [.step 0 (.list [['f'], ['i']]), .pass 1, .step 1 (.cond ⟨['s', '.', 't'], .eq, ['"', 'a', '"']⟩),
+         .step 0 (.str ['t']), .step 3 (.str ['t']), .pass 0, .step 2 (.slice ⟨some 1, none, none⟩)] with
+     | some (h', hs') => decide (hs'.length = 5) && hlists h' 5 (exSrc.map Item.row) &&
+         (match hs'[4]? with | some r => hlists h' r [.row [.num 40, .num 48]] | none => false)
+     | none => false) = true := by
+  decide
+
+end Heap
 
 /-! ### the tie by translation: the *source text* of `IterData.__getitem__` and `IterData.__iter__`
 
